@@ -1,13 +1,34 @@
 (* C16 Dynamic block time.  Proved here (node model, every reachable state, every script): the transaction-subscription
-   callback is used only when the maximum-block-time extension is configured.  The timing clauses (spacing of proposals,
-   empty blocks only after the maximum interval, prompt proposal on a notification, no idle view change) are statements
-   about synchronous multi-node runs; they are decided by the monitors on runs of the real code (sync mode c16) with the
+   callback is used only when the maximum-block-time extension is configured.  Proved as local theorems (every state meeting the conditions): no idle view change at a backup, prompt proposal
+   on a notification at the primary.  The remaining timing clauses (spacing of proposals, empty blocks only after the
+   maximum interval) are statements about synchronous multi-node runs; they are decided by the monitors on runs of the real code (sync mode c16) with the
    model tied to the code by the correspondence run (DESIGN.md C16). *)
 From Coq Require Import ZArith List.
-From DbftV Require Import Gates.
+From DbftV Require Import Gates P16.
 Open Scope Z_scope.
 
 Theorem subscription_only_when_the_extension_is_configured cfg st ev sc st' tr s :
   Reach cfg st -> step cfg st ev sc = Ok (st', tr) -> In (s, CSubscribe) tr -> cfg_dyn cfg = true.
 Proof. exact (subscribe_gate cfg st ev sc st' tr s). Qed.
 Print Assumptions subscription_only_when_the_extension_is_configured.
+
+(* no idle view change (every state that meets the conditions, every script under which the node is a non-watch-only
+   validator and the pool is empty): an undecided backup at view 0 whose timer fires subscribes for transactions and re-arms
+   the timer; it broadcasts nothing and stays in its view *)
+Theorem idle_backup_waits_instead_of_asking_for_a_view_change cfg h v s0 :
+  cfg_dyn cfg = true -> IsBackup s0 = true -> ViewNumber s0 = 0 -> blockProcessed s0 = false ->
+  h = BlockIndex s0 -> v = ViewNumber s0 -> txSubscriptionOn s0 = false ->
+  slot (CommitPayloads s0) (MyIndex s0) = None -> slot (PreCommitPayloads s0) (MyIndex s0) = None ->
+  hx s0 (OnTimeout cfg h v) (fun _ s tr =>
+    Val tr -> PoolEmpty tr ->
+    ViewNumber s = ViewNumber s0 /\ txSubscriptionOn s = true /\ (forall s' p, ~ In (s', CBroadcast p) tr) /\ HasReset tr /\ In CSubscribe (map snd tr)).
+Proof. exact (idle_backup_waits_instead_of_changing_view cfg h v s0). Qed.
+Print Assumptions idle_backup_waits_instead_of_asking_for_a_view_change.
+
+(* a new-transaction notification during the extended wait makes the primary propose in that very call *)
+Theorem notification_during_the_wait_produces_a_proposal cfg s0 :
+  txSubscriptionOn s0 = true -> IsPrimary s0 = true -> 0 <= MyIndex s0 -> 0 <= PrimaryIndex s0 -> blockProcessed s0 = false ->
+  slot (PreparationPayloads s0) (PrimaryIndex s0) = None ->
+  hx s0 (OnNewTransaction cfg) (fun _ _ tr => Val tr -> TagsCurrent tr -> exists s p, In (s, CBroadcast p) tr /\ p_type p = PrepareRequestT).
+Proof. exact (notification_makes_the_waiting_primary_propose cfg s0). Qed.
+Print Assumptions notification_during_the_wait_produces_a_proposal.
